@@ -19,5 +19,6 @@ def run(ck):
     geometry.r14_hull_needs_constant_sign_of_w(ck, P, 'C09-R10')   # COVER_CLIP promotes an alpha-less source to opaque
     sampling.r20_cover_from_corners_needs_affine(ck, P)
     status.r_same_storage_needs_same_offsets(ck, P)   # the pixbuf paths take the alpha of an alpha-less source's undefined byte
+    geometry.r10_region_gets_callers_images(ck, P, 'C09-R15')   # an opaque mask is dropped from the arithmetic, not from the region: its clip applies whichever way its opacity is presented
     gradient.r16_packed_channels_are_clamped(ck, P, 'C09-R14')   # a gradient flagged opaque must deliver opaque pixels
     codec.r17_converted_pixels_get_the_alpha_mask(ck, P, 'C09-R11')
